@@ -29,6 +29,8 @@ type VScanTagged struct {
 	X string        `prefix:"k3"`
 	L syslog.Logger `logger:""`
 	C string        `custom:"cv,carg=1 (2 3)"`
+	// one field carrying a processor's own tag AND the tag its extract handler understands: the explicit value tag counts, once
+	B string `value:"lit" prop:"k2"`
 }
 
 type vScanTaggedLower struct {
@@ -38,6 +40,8 @@ type vScanTaggedLower struct {
 	X string        `prefix:"k3"`
 	L syslog.Logger `logger:""`
 	C string        `custom:"cv,carg=1 (2 3)"`
+	// one field carrying a processor's own tag AND the tag its extract handler understands: the explicit value tag counts, once
+	B string `value:"lit" prop:"k2"`
 }
 
 // frame fields: never to be modified
@@ -58,6 +62,8 @@ type vShapeFlat struct {
 	X string        `prefix:"k3"`
 	L syslog.Logger `logger:""`
 	C string        `custom:"cv,carg=1 (2 3)"`
+	// one field carrying a processor's own tag AND the tag its extract handler understands: the explicit value tag counts, once
+	B string `value:"lit" prop:"k2"`
 }
 
 // vFrameFields is embedded by value in every shape; its own fields are frame fields
@@ -130,6 +136,18 @@ type vShapeTwice struct {
 	vAliasB
 }
 
+// an embedded by-value struct whose type declares a configuration prefix is still a container of fields
+type VPrefixed struct{ VScanTagged }
+
+func (p *VPrefixed) Prefix() string { return "pfx" }
+
+type vShapePrefixedEmbed struct {
+	nm string
+	vFrameFields
+	VPrefixed
+}
+
+func (h *vShapePrefixedEmbed) Naming() string { return h.nm }
 func (h *vShapeTwice) Naming() string       { return h.nm }
 func (h *vShapeFlat) Naming() string        { return h.nm }
 func (h *vShapeE1) Naming() string          { return h.nm }
@@ -248,7 +266,7 @@ func vRunShape(shape int, fr vFrameFields, init VScanTagged, cfg *vScanCfg, prov
 	case 0:
 		x := &vShapeFlat{nm: "holder", vFrameFields: fr, W: init.W, V: init.V, P: init.P, X: init.X, L: init.L, C: init.C}
 		h = x
-		tagged = func() VScanTagged { return VScanTagged{W: x.W, V: x.V, P: x.P, X: x.X, L: x.L, C: x.C} }
+		tagged = func() VScanTagged { return VScanTagged{W: x.W, V: x.V, P: x.P, X: x.X, L: x.L, C: x.C, B: x.B} }
 		frame = func() vFrameFields { return x.vFrameFields }
 	case 1:
 		x := &vShapeE1{nm: "holder", vFrameFields: fr, VScanTagged: init}
@@ -293,6 +311,12 @@ func vRunShape(shape int, fr vFrameFields, init VScanTagged, cfg *vScanCfg, prov
 		for _, sc := range scanners {
 			nd.Assert(sc.PostProcessDefinitionRegistry(f.definitionRegistry, other, "other") == nil, "scan ok")
 		}
+	case 12:
+		x := &vShapePrefixedEmbed{nm: "holder", vFrameFields: fr, VPrefixed: VPrefixed{init}}
+		h = x
+		tagged = func() VScanTagged { return x.VScanTagged }
+		frame = func() vFrameFields { return x.vFrameFields }
+		nd.Cover("embedded struct declaring a configuration prefix")
 	case 8:
 		x := &vShapeTwice{nm: "holder", vFrameFields: fr, vAliasA: init, vAliasB: init}
 		h = x
@@ -318,7 +342,7 @@ func vRunShape(shape int, fr vFrameFields, init VScanTagged, cfg *vScanCfg, prov
 	res := vScanResult{}
 	hm := f.definitionRegistry.GetMetaByName("holder")
 	// the property list, in a canonical order (by field name, then tag)
-	names := []string{"C", "L", "P", "V", "W", "X", "VScanTagged"}
+	names := []string{"B", "C", "L", "P", "V", "W", "X", "VScanTagged"}
 	for _, n := range names {
 		for _, grp := range []component_definition.PropertyType{component_definition.PropertyTypeComponent, component_definition.PropertyTypeConfiguration, "Logger", "Custom"} {
 			for _, pr := range hm.GetProperties(grp) {
@@ -346,7 +370,7 @@ func vRunShape(shape int, fr vFrameFields, init VScanTagged, cfg *vScanCfg, prov
 }
 
 func VerifC11() {
-	shapes := []int{1, 2, 3, 4, 5, 6, 9, 8, 10, 11}
+	shapes := []int{1, 2, 3, 4, 5, 6, 9, 8, 10, 11, 12}
 	shape := shapes[nd.Choose(nd.Param("SHAPES", len(shapes)))]
 	// symbolic initial contents of every frame field and of the tagged string fields
 	fr := vFrameFields{u: int(nd.Int64()), N: int(nd.Int64()), J: nd.Bytes(1), s: nd.Bytes(1), DV: nd.Bytes(1), NC: "nc"}
@@ -358,6 +382,19 @@ func VerifC11() {
 	nd.Assert(flat.ok, "C11: the flat shape starts")
 	nd.Assert(flat.w == any(provA) && flat.v == cfg.k && flat.p == cfg.k2 && flat.x == cfg.k3 && flat.l, "C11: every recognised tag of the flat shape is processed")
 	nd.Assert(flat.c == init.C, "C11: a field with a custom tag is not modified by the container")
+	for _, r := range []vScanResult{flat, got} {
+		nb := 0
+		for _, pr := range r.props {
+			if len(pr) > 2 && pr[:2] == "B|" {
+				nb++
+				nd.Assert(len(pr) >= 8 && pr[:8] == "B|value|", "C11: a field carrying a processor's own tag is processed under that tag")
+			}
+		}
+		if shape != 8 || r.second == nil {
+			nd.Assert(nb <= 1, "C11: a tagged field yields one property per processor, also when the processor's extract handler would match it too")
+		}
+	}
+	nd.Assert(flat.taggedV.B == "lit", "C11: the explicit value tag of a field decides what is bound")
 	nd.Assert(len(flat.custom) == 1, "C11: the custom tag processor receives exactly the field carrying its tag")
 	if len(flat.custom) == 1 {
 		rec := flat.custom[0]
@@ -385,7 +422,7 @@ func VerifC11() {
 			nd.Assert(t.W == any(provB) && t.V == cfg.k && t.P == cfg.k2 && t.X == cfg.k3 && t.L != nil && t.C == init.C, "C11: every recognised tag inside embedded structs is processed as on the flat shape")
 		}
 		nd.Assert(len(got.custom) == 2 && got.custom[0] == flat.custom[0] && got.custom[1] == flat.custom[0], "C11: the custom tag processor receives exactly the fields carrying its tag, with value and arguments")
-	case shape <= 5:
+	case shape <= 5 || shape == 12:
 		nd.Cover("see-through embedding")
 		// processed identically to the flat twin
 		nd.Assert(len(got.props) == len(flat.props), "C11: the same properties are created for a field declared directly or inside embedded structs")
